@@ -341,7 +341,16 @@ class Case:
         return self.impl_line()
 
 
+import itertools
+import threading
+
+_uniq = itertools.count()
+_uniq_lock = threading.Lock()
+
+
 def _run_sharded(exe, lines, tag, timeout):
+    with _uniq_lock:
+        tag = f"{tag}.{next(_uniq)}"
     """run exe on the lines split over NCPU processes; returns list of result lines"""
     os.makedirs(os.path.join(BUILD, "tmp"), exist_ok=True)
     n = len(lines)
@@ -386,6 +395,53 @@ def run_impl(cases, profile="release", timeout=3600):
 
 def run_model(cases, prefix="", timeout=3600):
     return _run_sharded(os.path.join(BUILD, "rqmodel"), [c.model_line(prefix) for c in cases], "model", timeout)
+
+
+def run_impl_crashsafe(cases, profile="release", chunk=60, timeout=600):
+    """like run_impl, but a process killed by a signal (e.g. SIGSEGV on a guard page) is survived: the cases of
+    the crashed chunk are re-run one per process and the crashing ones get the result line 'CRASH <signal>'"""
+    import concurrent.futures as cf
+    exe = harness_exe(profile)
+    os.makedirs(os.path.join(BUILD, "tmp"), exist_ok=True)
+
+    def run_chunk(idx_cases):
+        try:
+            return run_chunk0(idx_cases)
+        except subprocess.TimeoutExpired:
+            return -99, None
+
+    def run_chunk0(idx_cases):
+        with _uniq_lock:
+            u = next(_uniq)
+        inp = os.path.join(BUILD, "tmp", f"crash.{os.getpid()}.{u}.in")
+        outp = inp[:-3] + ".out"
+        with open(inp, "w") as f:
+            f.write("\n".join(c.impl_line() for c in idx_cases) + "\n")
+        p = subprocess.run([exe, inp, outp], stdout=subprocess.PIPE, stderr=subprocess.STDOUT, env=ENV, timeout=timeout)
+        res = None
+        if p.returncode == 0:
+            res = open(outp).read().split("\n")
+            if res and res[-1] == "":
+                res.pop()
+        for f in (inp, outp):
+            try:
+                os.unlink(f)
+            except OSError:
+                pass
+        return p.returncode, res
+
+    chunks = [cases[i : i + chunk] for i in range(0, len(cases), chunk)]
+    out = []
+    with cf.ThreadPoolExecutor(max_workers=NCPU) as ex:
+        results = list(ex.map(run_chunk, chunks))
+        for ch, (rc, res) in zip(chunks, results):
+            if rc == 0 and res is not None and len(res) == len(ch):
+                out.extend(res)
+            else:
+                singles = list(ex.map(lambda c: run_chunk([c]), ch))
+                for (rc1, r1) in singles:
+                    out.append(r1[0] if rc1 == 0 and r1 else f"CRASH {rc1}")
+    return out
 
 
 def canon(line):
